@@ -11,7 +11,7 @@ import (
 
 func init() {
 	register("C03",
-		"Static writer↔reader agreement and boundary-shape rules for SSTables: the bloom filter is fed fnv64 of exactly the key on both sides; the value checksum uses one CRC table; the index entry stores the offset returned by the data writer for that value, the CRC of that value and the key; every index loader maps (ValueOffset, Checksum, Key) of the index record into its entries; every IteratorBetween rejects lower > upper before building an iterator, and (E-SIGN) the comparator tests that implement inclusive upper bounds and binary-search steps react to exactly the right sign set; (E-WRAP) no unsigned subtraction in the index code can wrap unguarded; every full scan gets its own freshly opened sequential data reader and pairs one index step with one data record; index/data records are decoded without merging into a reused message. Decides these shapes for all index kinds; lookup results for all inputs (e.g. the disk index's probe arithmetic, D12a) are value-level and not decided.",
+		"Static writer↔reader agreement and boundary-shape rules for SSTables: the bloom filter is fed fnv64 of exactly the key on both sides; the value checksum uses one CRC table; the index entry stores the offset returned by the data writer for that value, the CRC of that value and the key; every index loader maps (ValueOffset, Checksum, Key) of the index record into its entries; every IteratorBetween rejects lower > upper before building an iterator, and (E-SIGN) the comparator tests that implement inclusive upper bounds and binary-search steps react to exactly the right sign set; (E-WRAP) no unsigned subtraction in the index code can wrap unguarded; every full scan gets its own freshly opened sequential data reader and pairs one index step with one data record; index/data records are decoded without merging into a reused message. the disk index's offset binary search holds no success return inside its loop, turns a probe that finds no entry into 'greater than the target' and caches only successful probes (D12a/D18); SeekNext skips a candidate whose header fails to parse, whatever the failure (typed header failure, D19); index entries are complete triples wherever they are constructed or converted; the buffered writer forwards bytes in order. Decides these shapes for all index kinds; lookup results for all inputs (probe arithmetic in general) are value-level and not decided.",
 		[]string{"comparators honour the sign contract", "proto.Unmarshal resets the target message"},
 		runC03)
 }
